@@ -49,6 +49,7 @@ InvC01 == (pc = "done" /\ ~Crashed) => NotKF(C01(Observed)) = {}
 InvC02 == (pc = "done" /\ ~Crashed) => NotKF(C02(Observed)) = {}
 InvC03 == (pc = "done" /\ ~Crashed) => C03(Observed) \cup C03Local(Observed) = {}
 InvC05 == (pc = "done" /\ ~Crashed) => C05Closed(Observed) = {}
+InvC12 == (pc = "done" /\ ~Crashed) => C12Below(Observed) = {}
 \* order independence (C09 at design level): whatever the order in which the document was built and whatever the
 \* tie-break, the evidence outside the tie groups is the one the order-free declarative layer determines
 DeclFacts == UNION {UNION {{<<k, q[1], q[2], q[3], q[4], Count(k, q[1], q[2], q[3], q[4])>> : q \in DOMAIN profs[k]} : k \in DOMAIN profs}}
